@@ -69,6 +69,32 @@ func genC13(tier string, seed int64) (*Family, error) {
 			fam.Instances = append(fam.Instances, Instance{Func: name + "_rulelevel", Stratum: fmt.Sprintf("layers=%d:rule-level-fault", len(d)), Desc: desc + ", rules failing at rule level", Expect: []string{"executed"}})
 		}
 	}
+	b.WriteString(`
+// a failed DAG call leaves nothing behind: the next call on the same engine runs all its layers
+func H_DAG_after_failed_call() {
+	n := 4
+	s := fixedSal(n)
+	f := symFlags("f", n)
+	rb := build(n, s, []bool{false, true, false, false})
+	eng := engine.NewGengine()
+	err := eng.ExecuteDAGModel(rb, [][]string{{"r0", "r1"}, {"r2"}})
+	vnd.Event("ret0")
+	vnd.Quiesce()
+	vnd.Assert(err != nil && vnd.Count("r2.s") == 0, "the first call fails in its first layer")
+	addFlags(rb.Dc, "f", f)
+	c := countsOf(n)
+	err = eng.ExecuteDAGModel(rb, [][]string{{"r0"}, {"r1", "r2"}, {"r3"}})
+	vnd.Event("ret")
+	vnd.Quiesce()
+	vnd.Reach("executed")
+	started := func(i int) bool { return vnd.Count(sname(i))-c[i] == 1 }
+	vnd.Assert(started(0), "the first layer runs")
+	vnd.Assert(vnd.Iff(started(1) && started(2), !f[0]), "the second layer starts iff the first one did not fail")
+	vnd.Assert(vnd.Iff(started(3), vnd.And(!f[0], vnd.And(!f[1], !f[2]))), "the third layer starts iff no earlier layer failed")
+	vnd.Assert(vnd.Iff(err != nil, vnd.Or(f[0], vnd.And(!f[0], vnd.Or(f[1], vnd.Or(f[2], f[3]))))), "error iff a rule of a started layer failed")
+}
+`)
+	fam.Instances = append(fam.Instances, Instance{Func: "H_DAG_after_failed_call", Stratum: "sequence", Desc: "a DAG call after a failed DAG call on the same engine", Expect: []string{"executed"}})
 	// empty DAG
 	b.WriteString("\nfunc H_DAG_empty() {\n\tn := 2\n\trb := build(n, fixedSal(n), symFlags(\"f\", n))\n\teng := engine.NewGengine()\n\terr := eng.ExecuteDAGModel(rb, nil)\n\tvnd.Reach(\"executed\")\n\tvnd.Assert(err == nil, \"an empty DAG runs nothing and succeeds\")\n\tvnd.Assert(len(vnd.Trace()) == 0, \"nothing runs\")\n}\n")
 	fam.Instances = append(fam.Instances, Instance{Func: "H_DAG_empty", Stratum: "layers=0", Desc: "empty DAG", Expect: []string{"executed"}})
@@ -224,6 +250,49 @@ func genC14(tier string, seed int64) (*Family, error) {
 	sameRuns(tr1, tr2, n, true)
 `, d.plainCall, d.tagCall))
 	}
+	// the as-given variant with a rule named twice: the stop applies at the first rule that set the tag
+	add("H_AsGivenDuplicates", "duplicates:AsGiven", "as-given with names [r0 r1 r0 r2]: nothing starts after the rule that set the tag", `	n := 3
+	s := symSal(n)
+	t := symFlags("t", n)
+	b := vnd.Bool("b")
+	stag := &engine.Stag{}
+	dc := newDC(allFalse(n))
+	addFlags(dc, "t", t)
+	dc.Add("stag", stag)
+	rb := buildText(dc, rulesTextOpt(n, s, "t"))
+	eng := engine.NewGengine()
+	err := eng.ExecuteSelectedRulesWithControlAndStopTagAsGivenSortedName(rb, b, stag, []string{"r0", "r1", "r0", "r2"})
+	vnd.Reach("executed")
+	vnd.Assert(err == nil, "no rule fails")
+	ord := []int{0, 1, 0, 2}
+	want := 0
+	for k, i := range ord {
+		want = k + 1
+		if t[i] {
+			break
+		}
+	}
+	tr := vnd.Trace()
+	vnd.Assert(len(tr) == 2*want, "exactly the rules up to and including the first one that set the tag run, each occurrence once")
+	for k := 0; k < want && 2*k+1 < len(tr); k++ {
+		vnd.Assert(tr[2*k] == sname(ord[k]) && tr[2*k+1] == ename(ord[k]), "rules run in the caller's order")
+	}
+`)
+	// the pool's mix stop-tag wrapper when the first rule sets the caller's tag through an injected function
+	add("P_mix_tag_by_closure", "pool", "pool mix stop-tag: the first rule sets the tag through an injected closure or method", `	for _, how := range []string{"stop()", "ctl.Stop()", "stag.StopTag = true"} {
+		apis := map[string]interface{}{"unused": int64(0)}
+		text := "rule \"r0\" salience 9 begin\n ev(\"r0.s\")\n " + how + "\n ev(\"r0.e\")\nend\nrule \"r1\" salience 5 begin\n ev(\"r1.s\")\n ev(\"r1.e\")\nend\nrule \"r2\" salience 3 begin\n ev(\"r2.s\")\n ev(\"r2.e\")\nend\n"
+		gp, e := engine.NewGenginePool(1, 2, engine.SortModel, text, apis)
+		must(e, "pool construction")
+		stag := &engine.Stag{}
+		c1, c2 := vnd.Count("r1.s"), vnd.Count("r2.s")
+		err, _ := gp.ExecuteMixModelWithStopTagDirect(map[string]interface{}{"ev": func(x string) { vnd.Event(x) }, "stag": stag, "stop": func() { stag.StopTag = true }, "ctl": &tagCtl{stag}}, stag)
+		vnd.Quiesce()
+		vnd.Assert(err == nil && stag.StopTag, "the first rule set the caller's tag")
+		vnd.Assert(vnd.Count("r1.s") == c1 && vnd.Count("r2.s") == c2, "once the first rule set the tag no further rule starts")
+	}
+	vnd.Reach("executed")
+`)
 	// a second call that is handed the same Stag object while it is still set: the tag counts from the start,
 	// so exactly the first rule of the order runs (the entry points test the tag after a rule, not before)
 	for _, d := range []struct{ id, call string }{
@@ -375,6 +444,10 @@ func genC14(tier string, seed int64) (*Family, error) {
 		}
 	}
 	b.WriteString(`
+type tagCtl struct{ t *engine.Stag }
+
+func (c *tagCtl) Stop() { c.t.StopTag = true }
+
 // checkMixTag (second call, events counted from mark): if the first rule sets the tag or fails
 // nothing else starts, otherwise every other rule runs once; error iff a started rule failed
 func checkMixTag(mark int, n int, s []int64, t, f []bool, err error) {
@@ -801,6 +874,66 @@ func H_same_rule_twice_args() {
 }
 `)
 	fam.Instances = append(fam.Instances, Instance{Func: "H_same_rule_twice_args", Stratum: "same-rule-overlap", Desc: "two executions of one rule overlapping inside the argument evaluation of a call", Expect: []string{"executed"}, Nondet: true})
+	b.WriteString(`
+type vbox struct{ V int64 }
+
+func (b vbox) Get() int64        { return b.V }
+func (b vbox) Plus(k int64) int64 { return b.V + k }
+
+// a method called on a struct held by value in a local runs on that rule's own struct
+func H_struct_value_local_method() {
+	a := symVals("a", 3)
+	dc := newDC(nil)
+	addVals(dc, "a", a)
+	dc.Add("mkv", func(v int64) vbox { return vbox{V: v} })
+	text := ""
+	for i := 0; i < 3; i++ {
+		k := strconv.Itoa(i)
+		text += "rule \"r" + k + "\" salience " + strconv.Itoa(9-i) + " begin\n p = mkv(a" + k + ")\n x = p.Get()\n y = p.Plus(1)\n return x + y\nend\n"
+	}
+	rb := buildText(dc, text)
+	for model := 0; model < 2; model++ {
+		eng := engine.NewGengine()
+		var err error
+		if model == 0 {
+			err = eng.Execute(rb, true)
+		} else {
+			err = eng.ExecuteConcurrent(rb)
+		}
+		res, _ := eng.GetRulesResultMap()
+		vnd.Assert(err == nil, "the rules succeed")
+		for i := 0; i < 3; i++ {
+			x, ok := res["r"+strconv.Itoa(i)].(int64)
+			vnd.Assert(ok && x == a[i]+a[i]+1, "each rule's method call sees its own local struct")
+		}
+	}
+	vnd.Reach("executed")
+}
+
+// a local whose name differs from an injected name only in letter case is a local
+func H_case_different_names() {
+	v := vnd.Int64("v")
+	total := v
+	dc := newDC(nil)
+	dc.Add("Total", &total)
+	dc.Add("Count", int64(3))
+	rb := buildText(dc, "rule \"r0\" salience 9 begin\n ev(\"r0.s\")\n total = 7\n count = total + 1\n ev(\"r0.e\")\n return count\nend\nrule \"r1\" salience 5 begin\n ev(\"r1.s\")\n y = total\n ev(\"r1.e\")\n return y\nend\nrule \"r2\" salience 3 begin\n ev(\"r2.s\")\n y = count\n ev(\"r2.e\")\n return y\nend\n")
+	eng := engine.NewGengine()
+	for call := 0; call < 2; call++ {
+		e1, e2 := vnd.Count("r1.e"), vnd.Count("r2.e")
+		err := eng.Execute(rb, true)
+		res, _ := eng.GetRulesResultMap()
+		x, ok := res["r0"].(int64)
+		vnd.Assert(ok && x == 8, "the rule computes with its own locals")
+		vnd.Assert(err != nil, "a rule reading another rule's local fails")
+		vnd.Assert(vnd.Count("r1.e") == e1 && vnd.Count("r2.e") == e2, "the readers stop at the undefined local")
+		vnd.Assert(total == v, "assigning to a local never changes an injected object of a similar name")
+	}
+	vnd.Reach("executed")
+}
+`)
+	fam.Instances = append(fam.Instances, Instance{Func: "H_struct_value_local_method", Stratum: "struct-local:method", Desc: "value-receiver methods on struct-valued locals of three rules", Expect: []string{"executed"}},
+		Instance{Func: "H_case_different_names", Stratum: "case-names", Desc: "locals total / count next to injected Total / Count", Expect: []string{"executed"}})
 	fam.Instances = append(fam.Instances, Instance{Func: "H_same_rule_twice_conc", Stratum: "same-rule-overlap", Desc: "two overlapping executions of one rule inside its conc block", Expect: []string{"executed"}},
 		Instance{Func: "H_function_local", Stratum: "function-local", Desc: "a function-valued local is private to its rule", Expect: []string{"executed"}})
 	fam.Instances = append(fam.Instances, Instance{Func: "H_after_fault", Stratum: "after-fault", Desc: "locals of a faulted execution do not survive", Expect: []string{"executed"}},
